@@ -541,8 +541,6 @@ def generate(rng, tier, n):
     cases += config_matrix(rng) + rsrv_matrix(rng)
     extra = 60 if tier == "thorough" else 8
     cases += [gen_e2ec(rng) for _ in range(extra)] + [gen_rsrv(rng) for _ in range(2 * extra)]
-    if os.environ.get("C02_SKIP_BREAKER_FINDING") == "1":     # self-test aid only: leave the open finding's inputs out
-        cases = [c for c in cases if classify(c, {}) is None]
     if tier == "thorough":
         cases += [gen_e2ec(rng, g=LARGE_MS, r=0, verbose=v, body=("many", 210000), hold=0) for v in (False, True)]
     rng.shuffle(cases)      # spread the expensive cases over the evaluation shards
@@ -808,15 +806,6 @@ def encode(case, obs):
 # ------------------------------------------------------------------------------ evidence helpers
 def _has_panic(case):
     return any(a["a"] == "panic" or (a["a"] == "wh" and not 100 <= a["c"] <= 599) for a in case["acts"])
-
-
-def classify(case, obs):
-    """breaker-swallows-nil-panic: googleBreaker.doReq still tests `recover() != nil`; without the timeout interceptor in
-    between (ServerConfig.Timeout = 0) a handler's panic(nil) is swallowed by the breaker interceptor inside Crash and the
-    started server answers OK with an empty message instead of Internal."""
-    if case.get("kind") == "rsrv" and case["timeout_ms"] <= 0 and case["h"]["t"] == "panic" and case["h"].get("pv") == "nil":
-        return "breaker-swallows-nil-panic"
-    return None
 
 
 def nontrivial(case, obs):
